@@ -194,10 +194,18 @@ def main(tier, seed):
             r1 = r2 = rng.choice(["f64", "f32"]) if u1 != u2 else rng.choice(["f64", "i32", "f32"])
         pos_cases.append((op, u1, u2, r1, r2))
     # trait questions: mismatched and matched, batched (must compile)
-    for _ in range(60 if tier == "quick" else 600):
+    n_trait = 60 if tier == "quick" else 600
+    tries = 0
+    while len(trait_cases) < n_trait and tries < 20 * n_trait:
+        tries += 1
         u1, u2 = gen_unit(), gen_unit()
         if rng.random() < 0.3:
             u1 = ("scale", u2, rng.choice(uexpr.SCALES[:6]))
+        # twin guard across the pair (documented exclusion: two distinct named units of identical dimension and magnitude, e.g. Hertz
+        # and Becquerel, have no tiebreaker in the unit ordering; a common type of quantities built on them is a hard error by design)
+        tk = set(uexpr.atoms_of(u1) + uexpr.atoms_of(u2))
+        if len({A.sig(k) for k in tk}) != len(tk):
+            continue
         trait_cases.append((u1, u2, rng.choice(ALL_INT + ALL_FLT), rng.choice(ALL_INT + ALL_FLT)))
     # mismatched dimensions with EQUAL magnitudes and integral reps (m vs s, km vs ks, N vs J): the scale factor between them is
     # Magnitude<>, the one value for which the policy has an integer-promotion carve-out; the dimension guard must still say no
